@@ -12,7 +12,7 @@ MIN_NONTRIVIAL = {"quick": 2000, "thorough": 30000}
 BLOB = (400, 1600)
 RULE = ("Hypothesis byte-backed generator: tables of 2-7 commands in 1-3 groups with 0-5 variables each (5 types x sizes incl. unsupported 3/8 x "
         "3 access modes x named/unnamed), all handler subsets, only_test / disable / group-disable / implicit_write (without variables) in any "
-        "combination, description present or not, plus a lister command returning PRINT_CMD_LIST_OK. Run A: capacity chosen -2..+2 around the "
+        "combination, description present or not, plus a lister command returning PRINT_CMD_LIST_OK. Run A: shared (even and odd size) or separate buffers, capacity chosen -2..+2 around the "
         "length of a list line or TEST text (or random): the command list, every AT<cmd>=? and one unsolicited TEST event are compared byte-for-byte "
         "with the Formatter (ERROR instead of a truncated line). Run B: generous capacity: the list is compared again and every request form of every "
         "command reachable by its full name is submitted with benign arguments: advertised forms must engage the command, non-advertised RUN/READ/WRITE "
